@@ -3,6 +3,7 @@ package props
 import (
 	"errors"
 	"fmt"
+	"os"
 	"reflect"
 	"runtime"
 	"runtime/debug"
@@ -13,6 +14,7 @@ import (
 	z "github.com/Oudwins/zog"
 	p "github.com/Oudwins/zog/internals"
 	"github.com/Oudwins/zog/parsers/zjson"
+	"github.com/Oudwins/zog/zenv"
 
 	"zogverif/internal/core"
 	"zogverif/internal/gen"
@@ -37,6 +39,7 @@ func (c07) Info(t core.Tier) core.Info {
 			"(1) history differential: a random history of 1-30 calls (any schema, data, options incl. WithCtxValue / WithIssueFormatter, JSON front end, any outcome; each result optionally handed to Collect, CollectList, CollectMap, SanitizeListAndCollect, SanitizeMapAndCollect) followed by a probe call, against the same probe on freshly cleared pools: canonical issues (key, path, code, type, message, params, value, error), destination and the context values seen by the probe's callbacks for the whole key universe must be identical; " +
 			"(2) dirty-pool prefill (fault enumeration): before the probe every pool is loaded with objects in library-reachable dirty states - ExecCtx with stale keys, formatter, issue container and source tag; SchemaCtx with CanCatch/Exit/HasCaught set and stale Data/ValPtr/Path/DType/Test; ZogIssue with every field non-zero; ErrsList/ErrsMap with stale contents; PathBuilder with a stale tail; a non-empty strings.Builder - all-dirty and one-field-at-a-time; same equality; " +
 			"(3) pool hygiene at quiescent points: the issue pool is drained after a history; a pointer present twice or an issue still referenced by an un-collected result triggers a targeted probe producing >= 2 issues on exactly that pool state, and only a divergence there is a violation. " +
+			"(4) every 16th case: a zenv data provider kept by the caller and handed to 6 successive calls while the environment changes in between, against a fresh provider in the same environment. " +
 			"non-trivial: probe whose execution hit the pools >= 1 time and produced >= 1 issue or read >= 1 context key; distinct by (history shape / prefill state, probe).",
 		Assumptions: append([]string{"sync.Pool behaves as a per-P stack when GOMAXPROCS=1 and the GC is off (probed on go1.23.5); pool hits are measured, not assumed"}, commonAssumptions...),
 		MinDistinct: 50,
@@ -289,6 +292,10 @@ func (c07) RunCase(c *core.Ctx) {
 	// the collector is off only during the episode (it would empty the pools); between cases it bounds the memory
 	debug.SetGCPercent(-1)
 	defer debug.SetGCPercent(100)
+	if c.Case%16 == 15 {
+		c07ReusedProvider(c)
+		return
+	}
 	switch c.Case % 3 {
 	case 0:
 		c07History(c)
@@ -297,6 +304,59 @@ func (c07) RunCase(c *core.Ctx) {
 	default:
 		c07Hygiene(c)
 	}
+}
+
+// c07ReusedProvider: a data provider object that the caller keeps and hands to several calls (zenv.NewDataProvider) is part of
+// each call's data only through what it presents at that moment: a call with the kept provider must equal the same call with a
+// fresh provider in the same environment, whatever earlier calls read through it.
+func c07ReusedProvider(c *core.Ctx) {
+	type Inner struct {
+		Host string `env:"C07_HOST"`
+	}
+	type Cfg struct {
+		Port int    `env:"C07_PORT"`
+		Name string `env:"C07_NAME"`
+		Rate float64
+		In   Inner
+	}
+	sch := z.Struct(z.Schema{"port": z.Int().GT(0).Required(), "name": z.String().Min(2).Default("dflt"), "rate": z.Float64().Optional(),
+		"in": z.Struct(z.Schema{"host": z.String().Required()})})
+	keys := []string{"C07_PORT", "C07_NAME", "rate", "C07_HOST"}
+	vals := [][]string{{"", "8080", "9500", " 7 ", "x", "-1"}, {"", "svc", "a", "  padded  "}, {"", "0.5", "2", "abc"}, {"", "h1", "h2"}}
+	defer func() {
+		for _, k := range keys {
+			os.Unsetenv(k)
+		}
+	}()
+	kept := zenv.NewDataProvider()
+	render := func(m z.ZogIssueMap, d Cfg) string {
+		all, _ := obs.CanonMap(m)
+		return fmt.Sprintf("%+v | %s", d, obs.Multiset(all, func(ci obs.CI) string { return ci.Full() }))
+	}
+	var hist []string
+	for round := 0; round < 6; round++ {
+		for i, k := range keys {
+			v := vals[i][c.R.Intn(len(vals[i]))]
+			if v == "" && c.R.Bool() {
+				os.Unsetenv(k)
+			} else {
+				os.Setenv(k, v)
+			}
+			hist = append(hist, fmt.Sprintf("%s=%q", k, v))
+		}
+		var d1, d2 Cfg
+		got := render(sch.Parse(kept, &d1), d1)
+		want := render(sch.Parse(zenv.NewDataProvider(), &d2), d2)
+		c.Eval(2)
+		if got != want {
+			c.Violation("execution-not-isolated|kept-data-provider", map[string]any{"environment_history": hist, "round": round,
+				"result_with_provider_kept_from_earlier_calls": got, "result_with_fresh_provider": want})
+			return
+		}
+		hist = append(hist, "-- parse --")
+	}
+	c.Count("kept_provider_rounds", 6)
+	c.NonTrivial(fpf("kept|%v", hist))
 }
 
 func compareProbe(c *core.Ctx, what string, pr *c07Probe, base, got probeResult, detail map[string]any) bool {
